@@ -815,9 +815,10 @@ pub fn gen_config(rng: &mut Rng, n: usize, full: bool) -> (Value, bool, bool) {
     let mut oov = vec![];
     if full || rng.chance(1, 3) {
         let id = rng.below(n);
+        let regex_pat = ["[a-z0-9]+(-[a-z0-9]+)*", "[a-z]+-[0-9]+", "[a-c]+[0-9]", "x[a-z0-9]*"][rng.below(4)];
         oov.push(json!({"class":"com.worksap.nlp.sudachi.RegexOovProvider",
             "leftId": id, "rightId": id, "cost": 2000 + rng.below(5000),
-            "regex": "[a-z0-9]+(-[a-z0-9]+)*", "maxLength": 4 + rng.below(30),
+            "regex": regex_pat, "maxLength": 4 + rng.below(30),
             "boundaries": if rng.chance(1,2) {"relaxed"} else {"strict"},
             "oovPOS": ["名詞", "普通名詞", "コード", "*", "*", "*"], "userPOS": "allow"}));
     }
@@ -904,6 +905,13 @@ pub fn gen_text(rng: &mut Rng, keys: &[String]) -> String {
                     s.push_str(["と", "う", "き", "ょ"][rng.below(4)]);
                 }
                 s.push_str(if rng.chance(1, 2) { ")" } else { "）" });
+            }
+            18 if rng.chance(1, 2) => {
+                // ascii codes: candidates of the regex OOV provider, matching and nearly matching
+                let parts = ["abc", "ax", "b", "c", "x", "-", "12", "3", "a1", "xb2", "-0", "cb"];
+                for _ in 0..1 + rng.below(4) {
+                    s.push_str(parts[rng.below(parts.len())]);
+                }
             }
             18 => {
                 // long OOV run
